@@ -10,6 +10,7 @@ import Drive.Alu
 import Drive.Regs
 import Drive.Asm
 import Drive.Bus
+import Drive.Dis
 /-!
 Line-protocol driver for the executable model: one request per line on stdin, one response per
 line on stdout.  `<unit> <op> <hex args…>`.
@@ -41,6 +42,7 @@ def stepLine (st : St) (line : String) : St × String :=
   | "alu" :: args => (st, aluStep args)
   | "regs" :: args => let (r, out) := regsStep st.regs args; ({ st with regs := r }, out)
   | "asm" :: args => let (a, out) := asmStep st.asm args; ({ st with asm := a }, out)
+  | "dis" :: args => (st, disStep args)
   | "bus" :: args => let (b, out) := Drive.BusDrive.busStep st.bus args; ({ st with bus := b }, out)
   | [] => (st, "")
   | _ => (st, "bad-unit")
